@@ -84,8 +84,16 @@ class Header:
 # Programmatically define headers:
 
 
-def mk_header(name, fields):
-    """Create a type which can parse this kind of header"""
+def mk_header(name, fields, byte_order=None):
+    """Create a type which can parse this kind of header
+
+    byte_order is an optional struct byte order character ('<' or '>')
+    which is applied to all fields. Default is native byte order.
+    """
+    if byte_order is not None:
+        for field in fields:
+            if isinstance(field, FormatField):
+                field.set_byte_order(byte_order)
     members = {"_fields": fields}
     size = 0
     for field in fields:
@@ -227,8 +235,14 @@ class FormatField(HeaderField):
     """Field which uses ``struct`` to pack and unpack data"""
 
     def __init__(self, name, fmt):
+        self.fmt = fmt
         self.packer = struct.Struct(fmt)
         super().__init__(name=name, size=self.packer.size)
+
+    def set_byte_order(self, byte_order):
+        """Use the given byte order ('<' or '>') to pack this field"""
+        self.packer = struct.Struct(byte_order + self.fmt)
+        assert self.packer.size == self.size
 
     def encode(self, value):
         return self.packer.pack(value)
